@@ -7,23 +7,23 @@ PROPS = {
             "note": "hook receives true result and operands in order: mirror clauses (argument list == operands left in the wrapped expression)"},
     "C04": {"units": ["U4", "U5", "U6b", "U6c"], "min_obligations": 6,
             "note": "every enabled operation instrumented: expr_done postcondition of the dispatcher, NotModified-only-if-literal lemmas of the transforms; traversal (children reach the visitor) is the assumed swc contract"},
-    "C05": {"units": ["U2", "U2b", "U3", "U4", "U5", "U6b", "U9"], "min_obligations": 5, "kani": True,
+    "C05": {"units": ["U2", "U2b", "U3", "U4", "U5", "U6b", "U9", "U11"], "min_obligations": 5, "kani": True,
             "note": "configuration honoured: operator gates, hook names taken from the configured dst, disabled operators untouched"},
     "C06": {"units": ["U1", "U3", "U4", "U5", "U6a", "U6b", "U6c", "U7"], "min_obligations": 10,
             "note": "temporaries hygienic: fresh index, declared, assigned before use"},
-    "C07": {"units": ["U6a", "U4", "U6b", "U6c", "U7"], "min_obligations": 6,
+    "C07": {"units": ["U6a", "U4", "U6b", "U6c", "U7", "U11"], "min_obligations": 6,
             "note": "directive prologues survive: insertion index == directive-prologue length; injected let / file prologue spliced right after it"},
-    "C09": {"units": ["U3", "U4", "U5", "U6a", "U9", "U7", "U10"], "min_obligations": 5,
+    "C09": {"units": ["U3", "U4", "U5", "U6a", "U9", "U7", "U10", "U11"], "min_obligations": 5,
             "note": "span discipline of injected / copied nodes"},
-    "C12": {"units": ["U1", "U6a", "U4", "U5", "U6b", "U6c", "U9", "U7", "U10"], "min_obligations": 5,
+    "C12": {"units": ["U1", "U6a", "U4", "U5", "U6b", "U6c", "U9", "U7", "U10", "U11"], "min_obligations": 5,
             "note": "status never disagrees with content"},
     "C10": {"units": ["U10", "U9"], "min_obligations": 8,
             "note": "chain_source_maps under contract over abstract views of the sourcemap crate (assumed library specs): the returned text serialises exactly the token-by-token composition, None (plain rewrite map) when chaining is off / no original map / unparsable rewrite map; lemma_exact_composition: generated positions resolve as the two-step lookup when every rewrite token has a hit. Trailer and comment handling (print_js, extract_source_map, remove_comment_text) is NOT proved: pinned by sha256 + replayed witnesses"},
-    "C13": {"units": ["U1", "U2", "U3", "U4", "U5", "U6a", "U6b", "U6c", "U8", "U9", "U7", "U2b", "U10"], "min_obligations": 30,
+    "C13": {"units": ["U1", "U2", "U3", "U4", "U5", "U6a", "U6b", "U6c", "U8", "U9", "U7", "U2b", "U10", "U11"], "min_obligations": 30,
             "note": "totality: Verus' implicit obligations (no overflow, no failing unwrap/index/slice, every loop and recursion terminates) on every verified function of every unit; glue functions pinned + panic witnesses"},
-    "C14": {"units": ["U8"], "min_obligations": 8,
+    "C14": {"units": ["U8", "U11"], "min_obligations": 8,
             "note": "literal report: length window, require/RegExp exclusions, which sub-trees are visited, disabled => no report; line/column shaping (get_result) is a pinned trusted leaf"},
-    "C15": {"units": ["U1", "U4", "U5", "U6b", "U6c", "U7", "U2b"], "min_obligations": 10,
+    "C15": {"units": ["U1", "U4", "U5", "U6b", "U6c", "U7", "U2b", "U11"], "min_obligations": 10,
             "note": "metrics == instrumentation emitted: per-call contracts on update_status/Telemetry (U1) and on every update_status call site of visit_mut_expr (U6)"},
 }
 
